@@ -3,7 +3,7 @@
    All statements quantify over EVERY reachable state of the life-cycle LTS Srv/Conc.v: any number of requests,
    any interleaving of the receive, worker, responder and send steps, any behaviour of the implementation. *)
 From Coq Require Import NArith List Bool PeanoNat.
-From V9 Require Shape.ShapeLib Shape.POrder.
+From V9 Require Shape.ShapeLib Shape.POrder Shape.PFlush.
 From V9 Require Import Lib.GoSem Gen.Consts Srv.Conc Srv.ConcProofs.
 Import ListNotations.
 
@@ -70,3 +70,10 @@ Theorem C07_source_structure :
   ShapeLib.respond_order = true /\ ShapeLib.recv_resets_reply_type = true /\ ShapeLib.cancelled_not_executed = true.
 Proof. split; [exact POrder.respond_order_ok | split; [exact POrder.recv_resets_reply_type_ok | exact POrder.cancelled_not_executed_ok]]. Qed.
 Print Assumptions C07_source_structure.
+
+
+(* ---- a modelling assumption about the shape of the CURRENT source (Gen/Shape.v), re-checked on every run ---- *)
+(* the Tflush is chained to its target inside the critical section in which Respond unlinks requests and collects their flushes *)
+Theorem C07_source_flush_chains_under_the_connection_lock : ShapeLib.flush_chains_under_conn_lock = true.
+Proof. exact PFlush.flush_chains_under_conn_lock_ok. Qed.
+Print Assumptions C07_source_flush_chains_under_the_connection_lock.
